@@ -103,6 +103,7 @@ func configs(thorough bool) []Config {
 		add("2x2@pb4:rwr(x,y);inc(x)|rwr(y,x);inc(y)", 4, false, Script{rwr(x, y), inc(x)}, Script{rwr(y, x), inc(y)})
 	}
 	// (2b) function-valued shared variable t accessed through Index() (t[k] := v, x := t[k]), two contexts, unbounded
+	quickCombos = 2 // quick: the two mixed timeout settings for configurations that also use x
 	idx := func(name string, ctxs ...Script) { add("idx:"+name, -1, false, ctxs...) }
 	idx("iw(1)|iw(1)", Script{iw(1)}, Script{iw(1)})         // indexed write only
 	idx("iw(1)|iw(2)", Script{iw(1)}, Script{iw(2)})         // different elements of one variable
@@ -125,6 +126,7 @@ func configs(thorough bool) []Config {
 	idx("iinc(1);ir(1)|wtA", Script{iinc(1), ir(1)}, Script{wtA()})
 	idx("iw(1);xir(1)|wtx", Script{iw(1), xir(1)}, Script{wtx()})   // the other sharer aborts by lock timeout on x
 	idx("iw(1);ir(1)|iwA(2)", Script{iw(1), ir(1)}, Script{iwA(2)}) // ... and another sharer's aborted indexed write
+	quickCombos = 0
 	// (2c) sharers wrapped in resources.MakePersistent (in-memory badger): commits go through Persistent.Commit's goroutine
 	persist := func(name string, ctxs ...Script) {
 		n := len(out)
@@ -697,7 +699,24 @@ func TestCheck(t *testing.T) {
 		for k := range viol {
 			keys = append(keys, k)
 		}
-		sort.Strings(keys)
+		// smallest configuration first: fewest contexts, then fewest accesses, then by name
+		size := func(k string) int {
+			rc := viol[k].Replay.(replayCase)
+			n := 0
+			for _, sc := range rc.Cfg.Ctxs {
+				n += 100
+				for _, sec := range sc {
+					n += len(sec)
+				}
+			}
+			return n
+		}
+		sort.Slice(keys, func(i, j int) bool {
+			if si, sj := size(keys[i]), size(keys[j]); si != sj {
+				return si < sj
+			}
+			return keys[i] < keys[j]
+		})
 		perKind := map[string]int{}
 		for _, k := range keys {
 			kind := strings.SplitN(k, "/", 2)[0]
